@@ -153,7 +153,7 @@ def fileStep (s : Store) (v : View) (h : Handle) : FOp → Store × View × Hand
       match s.get i with
       | some n =>
         if !checkPerm n.meta omWrite v then (s, v, h, .err .EPERM)
-        else (s.set i (n.setMeta { n.meta with uid := uid, gid := gid }), v, h, .ok .unit)
+        else (s.set i (n.setMeta { n.meta with uid := (if uid == -1 then n.meta.uid else uid), gid := (if gid == -1 then n.meta.gid else gid) }), v, h, .ok .unit)
       | none => (s, v, h, .panic)
   | .chdir =>
     if h.name.isEmpty then (s, v, h, .err .invalid) else
